@@ -436,7 +436,7 @@ float64_t igris_atof64(const char *nptr, char **endptr)
         else if (*nptr == '-')
         {
             nptr++;
-            sign = -1;
+            e_sign = -1;
         }
 
         while ((*nptr >= '0' && *nptr <= '9'))
